@@ -762,6 +762,7 @@ class KafkaClient(object):
         Takes a group (string) and list of OffsetFetchRequest and returns
         a list of OffsetFetchResponse objects
         """
+        group = _coerce_consumer_group(group)
         encoder = partial(KafkaCodec.encode_offset_fetch_request, group=group)
         decoder = KafkaCodec.decode_offset_fetch_response
         resps = yield self._send_broker_aware_request(payloads, encoder, decoder, consumer_group=group)
